@@ -19,7 +19,7 @@ INFO = {
                    "(3) __getitem__/__setitem__ apply one index to every coefficient and keep keys; (4) no coefficient "
                    "reaches a boolean context on the numeric arm of the operator entry points. Not decided: numpy "
                    "broadcasting itself.",
-    "decided": ["C16.reflected", "C16.positions", "C16.index-uniform", "C06.filter-sites", "C19.no-truthiness"],
+    "decided": ["C16.reflected", "C16.positions", "C16.operand-kinds", "C16.itermv", "C16.index-uniform", "C06.filter-sites", "C19.no-truthiness"],
     "not_decided": ["numpy's own broadcasting and element-wise arithmetic of the generated functions"],
     "assumptions": ["Python calls __rX__(right, left) only after left.__X__ is missing or returns NotImplemented"],
 }
@@ -85,7 +85,7 @@ def check_reflected(ctx, table, cls_qual, repo=None):
     return n
 
 
-@rule("C16.reflected", props=["C16"], min_instances=9, mutants=[
+@rule("C16.reflected", props=["C16", "C02", "C03", "C04", "C05", "C06", "C07"], min_instances=9, mutants=[
     ("alias __rsub__ = sub", ("multivector", "    def __rsub__(self, other):\n        return self.algebra.sub(other, self)",
                                "    __rsub__ = sub")),
     ("__rmatmul__ keeps (self, other)", ("multivector", "return self.algebra.proj(other, self)", "return self.algebra.proj(self, other)")),
@@ -475,3 +475,78 @@ def itermv(ctx):
             ctx.violation(c, "; ".join(problems), fn)
         else:
             ctx.ok(c, fn)
+
+
+@rule("C16.operand-kinds", props=["C16"], min_instances=9, mutants=[
+    ("sequences are mapped before callables are resolved", ("operator_dict", "        while isinstance(mv1, Callable) and not isinstance(mv1, MultiVector):\n            mv1 = mv1()\n        while isinstance(mv2, Callable) and not isinstance(mv2, MultiVector):\n            mv2 = mv2()\n        # If mv2 is a list, apply mv1 to all elements in the list\n        if isinstance(mv2, (tuple, list)):\n            return type(mv2)(self._call_binary(mv1, mv) for mv in mv2)\n        # If mv1 is a list, apply mv2 to all elements in the list\n        if isinstance(mv1, (tuple, list)):\n            return type(mv1)(self._call_binary(mv, mv2) for mv in mv1)\n",
+        "        # If mv2 is a list, apply mv1 to all elements in the list\n        if isinstance(mv2, (tuple, list)):\n            return type(mv2)(self._call_binary(mv1, mv) for mv in mv2)\n        # If mv1 is a list, apply mv2 to all elements in the list\n        if isinstance(mv1, (tuple, list)):\n            return type(mv1)(self._call_binary(mv, mv2) for mv in mv1)\n        while isinstance(mv1, Callable) and not isinstance(mv1, MultiVector):\n            mv1 = mv1()\n        while isinstance(mv2, Callable) and not isinstance(mv2, MultiVector):\n            mv2 = mv2()\n")),
+    ("callables are unwrapped only once", ("operator_dict", "        while isinstance(mv1, Callable) and not isinstance(mv1, MultiVector):\n            mv1 = mv1()", "        if isinstance(mv1, Callable) and not isinstance(mv1, MultiVector):\n            mv1 = mv1()")),
+    ("a tuple operand yields a list", ("operator_dict", "            return type(mv2)(self._call_binary(mv1, mv) for mv in mv2)", "            return list(self._call_binary(mv1, mv) for mv in mv2)")),
+])
+def operand_kinds(ctx):
+    """Decision table of _call_binary over operand kinds (multivector, number, list, tuple, callable, nested
+    callable, callable returning a list) on either side: which cache lookups and calls happen, in which order, and
+    what container comes back."""
+    from ..absint import Obj, Unk
+    from ..astx import NoValue
+    from ..callsites import tok, tname
+    from ..symenv import make_interp
+    repo = ctx.repo
+    q = "operator_dict.OperatorDict._call_binary"
+    fn = ctx.func(q)
+
+    def scenario(make_operands):
+        log = []
+        func = Obj("function", {"__name__": "FN", "fmt": "<FN>"}, call=lambda *a: (log.append(("call", tuple(tname(x) for x in a))), tok("VALUES_OUT"))[1])
+        alg = Obj("algebra", {"wrapper": None, "simp_func": None, "numspace": {}, "codegen_symbolcls": None, "fmt": "ALG"})
+        alg.methods["compare"] = lambda op, other: (other is alg) if op == "Eq" else (other is not alg) if op == "NotEq" else Unk("cmp")
+
+        def getitem(key):
+            log.append(("lookup", tname(key)))
+            return (tok("KEYS_OUT"), func)
+        me = Obj("OperatorDict", {"algebra": alg}, {"filter": lambda k, v: (k, v)}, getitem=getitem)
+
+        def mv(i):
+            return Obj("MultiVector", {"algebra": alg, "_keys": tok(f"K{i}"), "_values": tok(f"V{i}"), "issymbolic": False})
+
+        def thunk(value):
+            return Obj("function", {"fmt": "<thunk>"}, call=lambda: value)
+        a, b = make_operands(mv, thunk)
+        it = make_interp(repo)
+        it.instance_classes.update({"OperatorDict": "operator_dict.OperatorDict"})
+        out = it.run(q, [me, a, b])
+        return out, log
+
+    def shape(v):
+        if isinstance(v, list):
+            return ["list"] + [shape(x) for x in v]
+        if isinstance(v, tuple):
+            return ["tuple"] + [shape(x) for x in v]
+        if isinstance(v, Obj) and v.kind == "MultiVector":
+            return "mv"
+        return repr(v)
+    pair = lambda i, j: [("lookup", (f"K{i}", f"K{j}")), ("call", (f"V{i}", f"V{j}"))]
+    cells = {
+        "mv, mv": (lambda mv, th: (mv(1), mv(2)), "mv", pair(1, 2)),
+        "callable, mv": (lambda mv, th: (th(mv(1)), mv(2)), "mv", pair(1, 2)),
+        "mv, nested callable": (lambda mv, th: (mv(1), th(th(mv(2)))), "mv", pair(1, 2)),
+        "nested callable, mv": (lambda mv, th: (th(th(th(mv(1)))), mv(2)), "mv", pair(1, 2)),
+        "list, mv": (lambda mv, th: ([mv(1), mv(2)], mv(3)), ["list", "mv", "mv"], pair(1, 3) + pair(2, 3)),
+        "mv, tuple": (lambda mv, th: (mv(1), (mv(2), mv(3))), ["tuple", "mv", "mv"], pair(1, 2) + pair(1, 3)),
+        "callable returning a list, mv": (lambda mv, th: (th([mv(1), mv(2)]), mv(3)), ["list", "mv", "mv"], pair(1, 3) + pair(2, 3)),
+        "mv, callable returning a tuple": (lambda mv, th: (mv(1), th((mv(2), mv(3)))), ["tuple", "mv", "mv"], pair(1, 2) + pair(1, 3)),
+        "list of callables, mv": (lambda mv, th: ([th(mv(1)), mv(2)], mv(3)), ["list", "mv", "mv"], pair(1, 3) + pair(2, 3)),
+    }
+    for label, (mk, want_shape, want_log) in cells.items():
+        c = f"{q}#kinds:{label}"
+        try:
+            out, log = scenario(mk)
+        except NoValue as exc:
+            raise Unknown(c, str(exc), fn)
+        if out[0] == "raise":
+            ctx.violation(c, f"operands ({label}) raise {out[1]} instead of giving {want_shape}", fn)
+        elif shape(out[1]) != want_shape or log != want_log:
+            ctx.violation(c, f"operands ({label}) give {shape(out[1])} via {log}; expected {want_shape} via {want_log} "
+                             f"(callables replaced by their value first, then sequences mapped element-wise in order)", fn)
+        else:
+            ctx.ok(c, fn, result=want_shape)
